@@ -190,16 +190,17 @@ fn product_exact(a: f64, r: f64) -> bool {
 /// (keeps the generated durations away from the rounding and misalignment thresholds).
 /// Returns None when the case must be skipped.
 fn count_is_safe(d: f64, r: f64) -> Option<()> {
+    // (since /repo b8fb6ef) misaligned <=> |(f - n) / r| >= 1 / (100 r): for r > 0 the threshold is
+    // |f - n| = 0.01 samples; for r < 0 the bound is negative (always misaligned); r = 0 gives NaN
     if product_exact(d, r) {
-        // the product, the rounding and the subtraction are exact; the tolerance 1/(100 r) is the
-        // only rounded quantity: stay away from it unless the misalignment is exactly 0
+        // the product, the rounding and the subtraction are exact; the quotient and the tolerance
+        // are rounded: stay away from the threshold unless the misalignment is exactly 0
         let f = d * r;
         let mis = (f - f.round()).abs();
-        if r == 0.0 || mis == 0.0 {
+        if r <= 0.0 || mis == 0.0 {
             return Some(());
         }
-        let tol = 1.0 / (r * 100.0);
-        if tol < 0.0 || (mis - tol).abs() > 1e-9 * tol {
+        if (mis - 0.01).abs() > 1e-9 {
             return Some(());
         }
         return None;
@@ -215,8 +216,7 @@ fn count_is_safe(d: f64, r: f64) -> Option<()> {
     let n = f.round();
     let mis = (f - n).abs();
     let err = f * 4.0 * f64::EPSILON + f64::MIN_POSITIVE;
-    let tol = 1.0 / (r * 100.0);
-    if mis + err < 0.25 && (mis + err < tol * 0.999 || mis - err > tol * 1.001) {
+    if mis + err < 0.25 && (mis + err < 0.01 * 0.999 || mis - err > 0.01 * 1.001) {
         Some(())
     } else {
         None
@@ -687,8 +687,14 @@ fn main() {
     let mut dec_ok = 0u64;
     let mut dec_rejected = 0u64;
     for i in 0..ndec {
-        let (rate, e) = *rng.pick(&[(1.0e9, 9), (1.0e9, 9), (1.0e6, 6), (1.0e3, 3)]);
-        let k = if i % 3 == 0 { rng.range(1, 4000) } else { rng.range(4000, 400_000) } as u64;
+        let (mut rate, mut e) = *rng.pick(&[(1.0e9, 9), (1.0e9, 9), (1.0e6, 6), (1.0e3, 3)]);
+        let mut k = if i % 3 == 0 { rng.range(1, 4000) } else { rng.range(4000, 400_000) } as u64;
+        // regression witnesses of the repaired finding misalignment-tolerance-units
+        if i < 2 {
+            rate = 1.0e9;
+            e = 9;
+            k = [250_624, 122_343][i];
+        }
         let duration: f64 = format!("{k}e-{e}").parse().unwrap();
         let w = Wf { kind: Kind::Flat, ps: vec![], iq: Complex64::new(1.0, 0.0), pad_l: 0.0, pad_r: 0.0 };
         let c = Common { duration, scale: None, phase: None, detuning: None };
@@ -701,14 +707,12 @@ fn main() {
                 None,
             ),
             Err(SamplingError::MisalignedDuration { misalignment, max_misalignment, .. }) => {
+                // (finding misalignment-tolerance-units, repaired by /repo b8fb6ef: must not recur)
                 dec_rejected += 1;
-                // known class: the misalignment (in samples) is below 1% of a sample, yet above the
-                // code's tolerance 1/(100 rate), which is a time in seconds compared with samples
-                let known = misalignment.abs() < 0.01 && misalignment.abs() >= max_misalignment && rate > 1.0;
                 cx.run.process_failure(
-                    &format!("aligned decimal duration rejected as misaligned (misalignment {misalignment:e} samples, tolerance {max_misalignment:e})"),
+                    &format!("aligned decimal duration rejected as misaligned (misalignment {misalignment:e} s, tolerance {max_misalignment:e} s)"),
                     &desc,
-                    if known { Some("misalignment-tolerance-units") } else { None },
+                    None,
                 );
             }
             Err(e) => cx.run.process_failure(&format!("aligned decimal duration rejected: {e}"), &desc, None),
